@@ -192,8 +192,12 @@ pub fn run(ctx: &mut Ctx) -> (&'static str, String, bool) {
         ctx.merge(p);
     }
     for s in ["^|*:\\/?\"<>#123^945", "^L", "^^1", "a^", "^8é^vあ"] {
-        let esc = escaping::escape(s).to_string();
-        ctx.sample(json!({"input": s, "escaped": esc, "stripped": colours::strip(s), "wire_hex": hex(&codepages::to_lossy_bytes(&esc))}));
+        if let Ok(v) = guarded(|| {
+            let esc = escaping::escape(s).to_string();
+            json!({"input": s, "escaped": esc, "stripped": colours::strip(s), "wire_hex": hex(&codepages::to_lossy_bytes(&esc))})
+        }) {
+            ctx.sample(v);
+        }
     }
     ctx.assume("'encodable' repertoire for the wire-chain clause: characters present in at least one of the ten LFS codepages (checked by construction of the pool)");
     (
